@@ -1451,13 +1451,25 @@ fn gen_psend(r: &mut Rng, link: &str) -> String {
 /* ---------------------------------------------------------------- loop-back and end to end ---- */
 
 /// insert "no data yet" items in front of the items marked as allowed (at most 8 in a row, each with
-/// probability 1/every), then possibly one at the end; the Lean driver implements the same function
+/// probability 1/every), then possibly one at the end; one schedule in five (seed divisible by 5) also has one long
+/// idle gap of 24..1000 such items in front of the first allowed item at or after a seed-derived position (a link
+/// that stays silent for many polls in the middle of a packet); the Lean driver implements the same function
 /// (`Codec.schedule`)
 pub fn schedule<T: Clone>(seed: u64, items: &[T], wb: T, every: u64, allowed: Option<&[bool]>) -> Vec<T> {
     let mut r = Rng(seed);
     let mut out = Vec::with_capacity(items.len() + items.len() / 4 + 4);
+    let mut long: Option<(usize, usize)> =
+        if seed % 5 == 0 && !items.is_empty() { Some((((seed / 40) as usize) % items.len(), [24usize, 25, 32, 64, 100, 256, 300, 1000][((seed / 5) % 8) as usize])) } else { None };
     for (i, it) in items.iter().enumerate() {
         if allowed.map(|m| m[i]).unwrap_or(true) {
+            if let Some((j, l)) = long {
+                if i >= j {
+                    for _ in 0..l {
+                        out.push(wb.clone());
+                    }
+                    long = None;
+                }
+            }
             let mut k = 0;
             while k < 8 {
                 if r.below(every) != 0 {
